@@ -176,6 +176,15 @@ pub mod checks {
         }
         out
     }
+    fn desc_in_filter(s: &Segment) -> bool {
+        let is_desc = |x: &Segment| matches!(x, Segment::Descendant(_));
+        match s {
+            Segment::Selector(Selector::Filter(f)) => filter_has(f, &is_desc),
+            Segment::Selectors(v) => v.iter().any(|x| matches!(x, Selector::Filter(f) if filter_has(f, &is_desc))),
+            Segment::Descendant(b) => desc_in_filter(b),
+            _ => false,
+        }
+    }
     pub fn features(q: &[Segment], doc: &Value) -> Vec<String> {
         let mut f = vec![];
         if q.iter().any(seg_has_union) { f.push("multi-selector-segment".to_string()); }
@@ -331,7 +340,9 @@ pub mod checks {
                         else if (qi + di) % stride != 0 && di >= always() { continue; }
                         // the two deeply nested documents: at most two segments and one `..` (a descendant of a descendant of 600 nodes is quadratic)
                         if name != "e2e_ext" && (di == always_small() || di == always_small() + 1)
-                            && (q.segments.len() > 2 || q.segments.iter().filter(|s| matches!(s, Segment::Descendant(_))).count() > 1) { continue; }
+                            && (q.segments.len() > 2 || q.segments.iter().filter(|s| matches!(s, Segment::Descendant(_))).count() > 1
+                                // (a `..` inside a filter is evaluated once per candidate node: quadratic in the 600 nodes; allowed only for one-segment queries)
+                                || (q.segments.len() > 1 && q.segments.iter().any(|s| desc_in_filter(s)))) { continue; }
                         let r1 = e2e_one(q, d, d, &mut rep, "serde_json::Value", (qi, di));
                         if name == "e2e_ext" { continue; }   // the second implementation has no extension functions (the trait's default returns null)
                         // quick: the second implementation on every pair with a curated document, on every other pair with a random one
